@@ -67,7 +67,8 @@ Participants(ev) ==
                                                      \* test; EVO script commands issued by a repository test)
     [] OTHER -> {}
 
-CommentTexts(recs) == LET cm == Comments(recs) IN [i \in 1..Len(cm) |-> cm[i].text]
+\* comment texts are compared modulo surrounding white space and empty lines (the properties do not pin either)
+CommentTexts(recs) == LET cm == SelectSeq(Comments(recs), LAMBDA r : r.stext # "") IN [i \in 1..Len(cm) |-> cm[i].stext]
 
 NamesOf(c, k) == UNION {CNames(c[k][i]) : i \in 1..Len(c[k])}
 
@@ -584,7 +585,7 @@ JudgeFile(tr, T, ev) ==
     Cl("C17.noext", ev.op = "save" /\ a.ext = "none", ev.out # "ok" /\ ~ev.file.exists),
     Cl("C17.nopath", ev.op = "exit" /\ ~a.haspath, ev.out = "ok" /\ ~ev.file.exists),
     Cl("C17.enter", ev.op = "enter", ev.out = "ok" /\ ev.wlen = 0),
-    Cl("C17.str", ev.op = "str", ev.out = "ok" /\ ev.strcp = StrCodes(lines)),
+    Cl("C17.str", ev.op = "str", ev.out = "ok" /\ ev.strlines = lines),
     Cl("C17.unchanged", ev.op \in {"save", "exit", "str"}, ev.recs = <<>> /\ ev.wlen = Len(wl))
   }
 
